@@ -103,10 +103,12 @@ OptChoices ==
 ExtraChoices ==
   CASE Scope = "shapes"  -> {"none", "kw", "internal"}
     [] Scope \in {"options", "twins", "ads"} -> {"none"}
-    [] OTHER             -> {"none", "kw", "internal", "reserved", "xreq"}
-\* "xreq" adds an RPC (Xcheck) whose request message lives in the dependency package (so the dependency file is there)
+    [] OTHER             -> {"none", "kw", "internal", "reserved", "xreq", "sibdep"}
+\* "xreq" adds an RPC (Xcheck) whose request message lives in the dependency package (so the dependency file is there);
+\* "sibdep": the dependency file's package extends the LAST SEGMENT of the target package (acme.lib.v1beta1 next to
+\* acme.lib.v1, acme.libs next to acme.lib) - it is a different package, not a sub-package, and stays a dependency
 Requests == { r \in [ pkg : PkgChoices, files : FilesChoices, svcs : SvcChoices, kinds : KindChoices,
-                      dep : BOOLEAN, items : OptChoices, extra : ExtraChoices ] : r.extra = "xreq" => r.dep }
+                      dep : BOOLEAN, items : OptChoices, extra : ExtraChoices ] : r.extra \in {"xreq", "sibdep"} => r.dep }
 
 Init == /\ req \in Requests
         /\ stage = "start" /\ opts = None /\ package = <<>> /\ naming = None /\ protos = <<>>
